@@ -91,6 +91,8 @@ def ckEvents (hasHandler : Bool) (expectH : Option (Nat × String)) : CkSt → L
 def ckOp (cap : Option Nat) (hasHandler : Bool) (s : CkSt) (op : HOp) (o : HObs) : Ck CkSt := do
   if o.res = .panic then viol "C20" "an operation of the queuing sink panicked" else
   if o.res = .slow then viol "C09" "dropping a handle waited (more than 100 ms) instead of returning at once" else
+  if (match op with | .flush _ => false | _ => true) && o.evs.contains .flushed then
+    viol "C10+C19" "an operation other than flush made the wrapped sink flush" else
   if o.res = .blocked then
     (match op with
      | .drop _ => viol "C09" "dropping a handle blocked"
